@@ -1,0 +1,37 @@
+//go:build verif
+
+package cmd
+
+import (
+	v2 "github.com/hydraide/hydraide/app/core/hydra/swamp/chronicler/v2"
+)
+
+// VerifCompactSwamp exposes compactSwamp, the per-file step of `hydraidectl compact`,
+// to the verification harness (build tag verif only).
+func VerifCompactSwamp(filePath string, threshold float64, dryRun bool) *v2.CompactionResult {
+	old := compactDryRun
+	compactDryRun = dryRun
+	defer func() { compactDryRun = old }()
+	return compactSwamp(filePath, threshold)
+}
+
+// VerifRunCompaction exposes runCompaction, the worker pool of `hydraidectl compact`,
+// to the verification harness (build tag verif only).
+func VerifRunCompaction(swampFiles []string, threshold float64, parallel int) *CompactReport {
+	oldP, oldD := compactParallel, compactDryRun
+	compactParallel, compactDryRun = parallel, false
+	defer func() { compactParallel, compactDryRun = oldP, oldD }()
+	report := &CompactReport{}
+	runCompaction(swampFiles, threshold, report)
+	return report
+}
+
+// VerifMigrateFileV2Format exposes migrateFileV2Format, the per-file step of
+// `hydraidectl migrate v2-migrate-format` (legacy name-in-block files are rewritten with the
+// name behind the header), to the verification harness (build tag verif only).
+func VerifMigrateFileV2Format(filePath string) (oldSize, newSize int64, needed bool, err error) {
+	old := migrateV2FmtDryRun
+	migrateV2FmtDryRun = false
+	defer func() { migrateV2FmtDryRun = old }()
+	return migrateFileV2Format(filePath)
+}
